@@ -31,7 +31,9 @@ CONSTANTS N,          \* cells
           MaxHist,    \* parameter sets per behaviour
           Backup,     \* "any" | "all" | "none"
           Scenes,     \* subset of {"single", "pair", "disp"}
-          DispWrite   \* "every" (code) | "own" (negative instance): which devices write dispersion coefficients
+          DispWrite,  \* "every" (code) | "own" (negative instance): which devices write dispersion coefficients
+          MatTable    \* "own" (code): every device is mapped with ITS materials | "first" (negative instance): the
+                      \* material table of the first device in the list is reused for all (a cache keyed by names)
 
 VARIABLES base, devs, cur, hlen, last,
           bcoef,      \* abstract dispersion coefficient of every cell after placement (0 = non-dispersive)
@@ -67,9 +69,16 @@ PairScenes ==
                   pp \in PairPlacements, me \in MaterialLists["etched"],
                   mp \in { m \in MaterialLists["continuous"] : Ascending(m) } }
 
+\* two plain devices (both continuous, or both discrete) with DIFFERENT material sets, disjoint, both list orders
+TwinScenes ==
+    UNION { { << Dev(<< 0, 2, 1 >>, kind, m1), Dev(<< 2, 4, 2 >>, kind, m2) >>, << Dev(<< 2, 4, 2 >>, kind, m2), Dev(<< 0, 2, 1 >>, kind, m1) >> } :
+              kind \in {"continuous", "discrete"},
+              m1 \in { m \in MaterialLists["continuous"] : Ascending(m) }, m2 \in { m \in MaterialLists["continuous"] : Ascending(m) } }
+
 Init == /\ base \in [ 1..N -> { Iso(e) : e \in BaseEps } ]
         /\ devs \in (IF "single" \in Scenes THEN SingleScenes ELSE {}) \cup (IF "pair" \in Scenes THEN PairScenes ELSE {})
                      \cup (IF "disp" \in Scenes THEN DispScenes ELSE {})
+                     \cup (IF "twin" \in Scenes THEN { sc \in TwinScenes : sc[1].mats # sc[2].mats } ELSE {})
         /\ bcoef \in (IF "disp" \in Scenes THEN [ 1..N -> {0, 9} ] ELSE { [ c \in 1..N |-> 0 ] })
         /\ cur = [ c \in 1..N |-> Dbl(base[c]) ]
         /\ dcur = [ c \in 1..N |-> 2 * bcoef[c] ]
@@ -91,7 +100,8 @@ HasBackup == CASE Backup = "any"  -> \E k \in 1..Len(devs) : devs[k].kind = "etc
 Apply(ps) ==
     /\ hlen < MaxHist
     /\ LET start == IF HasBackup THEN [ c \in 1..N |-> Dbl(base[c]) ] ELSE cur
-       IN  cur' = WriteAll(start, devs, ps, 1)
+           used  == IF MatTable = "own" THEN devs ELSE [ k \in 1..Len(devs) |-> [ devs[k] EXCEPT !.mats = devs[1].mats ] ]
+       IN  cur' = WriteAll(start, used, ps, 1)
     /\ dcur' = WriteAllCoef(dcur, devs, ps, 1, DispWrite)        \* the coefficient arrays have no backup
     /\ hlen' = hlen + 1 /\ last' = ps
     /\ UNCHANGED << base, devs, bcoef >>
@@ -133,6 +143,7 @@ P012   == {0, 1, 2}
 P02    == {0, 2}
 Single == {"single"}
 Pair   == {"pair"}
-Both   == {"single", "pair", "disp"}
+Both   == {"single", "pair", "disp", "twin"}
+Twin   == {"twin"}
 Disp   == {"disp"}
 =======================================================================
